@@ -983,5 +983,5 @@ PROPERTIES = {
             "the token/formatting/reconstructor types has interior mutability, no unsafe code and no mutable static on the path, cursor code calls no token mutator — so by Rust's "
             "aliasing rules nothing the tracker does can be observed by reconstruct. Cursor arithmetic panics are audited under C04.b (two defects fixed there). "
             "Of clauses 2-3 only one structural necessary condition is decided: (d) cursors are mapped independently of each other — collections and iterators of cursors are only traversed completely and element-wise. "
-            "Not decided: where a cursor lands (clauses 2-3). Added in rounds 4-6, structural necessary conditions of clauses 2-3: (e) the configured newline length and the layout counters measure only tokens known not to be ignored (or under the predicate under which the emission step writes the newline itself); (f) byte-exact cut of cursor text; (g) cursor offsets reach the core unmodified; (h) offsets into changed text and into kept multi-byte blanks are moved to a character boundary; (i) every observation that decides what the emission step writes in front of a token is consulted by offset_for_token's family.", []),
+            "Not decided: where a cursor lands (clauses 2-3). Added in rounds 4-6, structural necessary conditions of clauses 2-3: (e) the configured newline length and the layout counters measure only tokens known not to be ignored (or under the predicate under which the emission step writes the newline itself); (f) byte-exact cut of cursor text; (g) cursor offsets reach the core unmodified; (h) offsets into changed text and into kept multi-byte blanks are moved to a character boundary; (i) every observation that decides what the emission step writes in front of a token is consulted by offset_for_token's family. Added in round 7: (j) no byte or line count is narrowed below 32 bits in the cursor code.", []),
 }
